@@ -1161,3 +1161,77 @@ def closer_pair_search(rng, A, B, starts, iters=400):
         if best is None or d < best[0]:
             best = (d, a, b)
     return best
+
+
+# ----------------------------------------------------------------------------- cheap float pre-screen (case selection only)
+def sup_float(p, n):
+    """float value of sup {x.n | x in primitive}; None if unbounded in that direction (untrusted; used only to decide
+    which pooled candidates deserve the exact judgement)"""
+    k = p["kind"]
+    dt = lambda a, b: a[0] * b[0] + a[1] * b[1] + a[2] * b[2]
+    if k == "point":
+        return dt(p["p"], n)
+    if k == "line_segment":
+        return max(dt(p["s"], n), dt(p["e"], n))
+    if k == "triangle":
+        return max(dt(v, n) for v in p["pts"])
+    if k == "rectangle":
+        return dt(p["c"], n) + 0.5 * p["lengths"][0] * abs(dt(p["axes"][0], n)) + 0.5 * p["lengths"][1] * abs(dt(p["axes"][1], n))
+    if k == "line":
+        return dt(p["p"], n) if abs(dt(p["d"], n)) <= 1e-12 * math.sqrt(dt(n, n)) else None
+    if k == "plane":
+        c = cross(p["n"], n)
+        return dt(p["p"], n) if dt(c, c) <= 1e-24 * dt(n, n) else None
+    if k in ("disk", "circle"):
+        nn = dt(p["n"], p["n"])
+        return dt(p["c"], n) + p["r"] * math.sqrt(max(0.0, dt(n, n) - dt(n, p["n"]) ** 2 / nn))
+    P = p["pose"]
+    X, Y, Z = ([P[i][j] for i in range(3)] for j in range(3))
+    c = [P[i][3] for i in range(3)]
+    if k == "box":
+        return dt(c, n) + sum(0.5 * p["size"][j] * abs(dt(ax, n)) for j, ax in enumerate((X, Y, Z)))
+    if k == "cylinder":
+        return dt(c, n) + p["r"] * math.sqrt(dt(n, X) ** 2 + dt(n, Y) ** 2) + 0.5 * p["l"] * abs(dt(n, Z))
+    if k == "ellipsoid":
+        return dt(c, n) + math.sqrt(sum((p["radii"][j] * dt(n, ax)) ** 2 for j, ax in enumerate((X, Y, Z))))
+    return None
+
+
+def float_suspicious(case, out):
+    """cheap float screen of an implementation result [d, p1.., p2..]: True if the result looks wrong (point off its
+    primitive by > 1e-7 L, |p1-p2| differs from d by > 1e-5 L, or -- convex pairs -- the direction p2 - p1 does not separate
+    the primitives by d - 1e-5 L).  Errs on both sides; it only steers which candidates get the exact judgement."""
+    A, B = case["A"], case["B"]
+    if out is None or any(not math.isfinite(x) for x in out):
+        return True
+    d = out[0]
+    if A["kind"] == "point":
+        p1, p2 = list(A["p"]), out[1:4]
+    else:
+        p1, p2 = out[1:4], out[4:7]
+    if len(p2) != 3 or len(p1) != 3:
+        return True
+    L = scale_L(A, B)
+    if d < 0 or abs(math.dist(p1, p2) - d) > 1e-5 * L:
+        return True
+    for prim, x in ((A, p1), (B, p2)):
+        if math.dist(fproj(prim, x), x) > 1e-7 * L:
+            return True
+    if "circle" in (A["kind"], B["kind"]) or d <= 1e-5 * L:
+        return False
+    n = [p2[i] - p1[i] for i in range(3)]
+    for prim in (A, B):
+        if prim["kind"] == "line":
+            t = sum(n[i] * prim["d"][i] for i in range(3))
+            n = [n[i] - t * prim["d"][i] for i in range(3)]
+        elif prim["kind"] == "plane":
+            sgn = 1.0 if sum(n[i] * prim["n"][i] for i in range(3)) >= 0 else -1.0
+            n = [sgn * x for x in prim["n"]]
+    nn = math.sqrt(sum(x * x for x in n))
+    if nn == 0.0:
+        return True
+    sa = sup_float(A, n)
+    sb = sup_float(B, [-x for x in n])
+    if sa is None or sb is None:
+        return False
+    return (-sb - sa) < (d - 1e-5 * L) * nn
